@@ -148,10 +148,28 @@ func GenProject(r *core.Rng, flavour string) Project {
 		if i == cycleFrom && cycleTo != cycleFrom {
 			body = append(body, fmt.Sprintf("acc = acc + %s::Run();", name(cycleTo)))
 		}
+		// a private helper in every module of the error flavour: using it from an
+		// importer gives a diagnostic with labels in two files
+		if flavour == "errors" {
+			fmt.Fprintf(&b, "fn hidden%d(n: i32) -> i32 {\n    return n * 2;\n}\n\n", i)
+		}
 		// deliberate errors
 		if errMods[i] {
 			for e := r.Range(1, 3); e > 0; e-- {
-				switch r.Intn(4) {
+				kind := r.Intn(7)
+				if kind >= 4 && len(imports[i]) == 0 {
+					kind = r.Intn(4)
+				}
+				switch kind {
+				case 4: // private symbol of an imported module (labels in two files)
+					j := core.Pick(r, imports[i])
+					body = append(body, fmt.Sprintf("acc = acc + %s::hidden%d(%d);", ref(j), j, e))
+				case 5: // same-named type of another module used where the local one is expected
+					j := core.Pick(r, imports[i])
+					body = append(body, fmt.Sprintf("let mixed%d: Item = %s::MakeItem(%d);", e, ref(j), e))
+				case 6: // unknown symbol of an imported module
+					j := core.Pick(r, imports[i])
+					body = append(body, fmt.Sprintf("acc = acc + %s::NoSuch%d();", ref(j), e))
 				case 0:
 					body = append(body, fmt.Sprintf("let bad%d: i32 = \"text\";", e))
 				case 1:
